@@ -356,6 +356,16 @@ func (vc *FnVC) callContract(in *ssa.Call, callee *ssa.Function, fc *FuncContrac
 		}
 	}
 	for _, e := range fc.Ensures {
+		// clauses about the callee's own ghost state are internal to its activation
+		ghostClause := false
+		for _, gv := range fc.GhostVars {
+			if mentions(e.Expr, gv.Name) {
+				ghostClause = true
+			}
+		}
+		if ghostClause {
+			continue
+		}
 		s, err := post.ElabBool(e.Expr)
 		if err != nil {
 			vc.errorf("call-post %s ensures %q: %v", fc.Key, e.Text, err)
@@ -378,6 +388,18 @@ func shortFn(n string) string {
 func (vc *FnVC) applyModItem(m modItem, pos token.Pos) {
 	srt := vc.compSortOf(m)
 	switch m.kind {
+	case "anyref":
+		// the caller must itself be allowed to write any object of that type
+		allowed := false
+		for _, mine := range vc.modItems {
+			if mine.kind == "anyref" && mine.comp == m.comp {
+				allowed = true
+			}
+		}
+		if !allowed && vc.fc != nil {
+			vc.obAssert("frame", "frame@callee-modifies "+m.text, "callee may write any object of the type: caller must declare the same", "false", pos)
+		}
+		vc.heapHavoc(m.comp, srt)
 	case "field":
 		vc.checkWrite(m.comp, m.ref, "", "callee-modifies "+m.text, pos)
 		elemSort := strings.TrimSuffix(strings.TrimPrefix(srt, "(Array Int "), ")")
@@ -433,7 +455,7 @@ func (vc *FnVC) compSortOf(m modItem) string {
 		return s
 	}
 	switch m.kind {
-	case "field":
+	case "field", "anyref":
 		if m.owner != nil {
 			_, s := vc.fieldComp(m.owner, m.field)
 			return s
@@ -1042,6 +1064,15 @@ func (vc *FnVC) noteTypes(seen map[string]types.Type, note func(comp, sort, ref 
 // noteModItem: classify a callee's modifies item for loop havoc purposes.
 func (vc *FnVC) noteModItem(item string, callee *ssa.Function, args []ssa.Value, inLoop func(ssa.Value) bool, note func(comp, sort, ref string, precise bool)) {
 	item = strings.TrimSpace(item)
+	if strings.HasPrefix(item, "typeof ") {
+		env := &Env{vc: vc, vars: map[string]Term{}, pkg: callee.Pkg.Pkg}
+		if mis, err := vc.elabModItem(env, item); err == nil {
+			for _, m := range mis {
+				note(m.comp, vc.compSortOf(m), "", false)
+			}
+		}
+		return
+	}
 	base := strings.TrimPrefix(item, "*")
 	for _, suf := range []string{"[..]"} {
 		base = strings.TrimSuffix(base, suf)
